@@ -201,8 +201,14 @@ theorem checked_sub_exact (a b : Nat) (_ha : a < U256) (_hb : b < U256) :
 /-- the exact sum of the costs is a representable amount -/
 def SumRepresentable (xs : List Nat) : Prop := xs.sum < U256
 
-/-- The full statement for the CLI total — FALSE of the current code (`+=` on `Amount` wraps), see the witness. -/
-def CliSummaryExact : Prop := ∀ l d : List Nat, cliSummary l d = (l ++ d).sum
+/-- The full statement for the CLI total, for an accumulation `f` that may report overflow: the exact sum when it
+is representable, an error (no value) otherwise. Satisfiable — `cli_summary_checked_exact` — and FALSE of the
+current code (`+=` on `Amount` wraps and still yields a value), see the witness. -/
+def CliSummaryExactOf (f : List Nat → List Nat → Option Nat) : Prop :=
+  ∀ l d : List Nat, ((l ++ d).sum < U256 → f l d = some (l ++ d).sum) ∧ (U256 ≤ (l ++ d).sum → f l d = none)
+
+/-- …of the code as it stands (`cliSummaryWith false` = `some (cliSummary ..)`). -/
+def CliSummaryExact : Prop := CliSummaryExactOf (cliSummaryWith false)
 
 /-- **CLI totals are exact sums** — under `SumRepresentable`. Whatever the split between events consumed before
 and after the completion signal (a scheduling choice of `tokio::select!`), the reported total is the exact sum of
@@ -230,11 +236,26 @@ a total of 0 (`tokens_spent += …` is ruint's `wrapping_add`). -/
 theorem cli_summary_wraps_witness : cliSummary [U256 - 1] [1] = 0 ∧ cliSummary [] [U256 - 1, 1] = 0 := by
   constructor <;> simp [cliSummary, cliSummaryAccumulates, U256]
 
+/-- The refutation isolates the wrap: the only way the current code fails the full statement is by answering a
+wrapped value where an error is due (on representable sums it is exact: `cli_summary_exact_partial`). -/
 theorem not_cliSummaryExact : ¬ CliSummaryExact := by
   intro h
-  have h1 := h [U256 - 1] [1]
-  rw [cli_summary_wraps_witness.1] at h1
-  simp [U256] at h1
+  have h1 := (h [U256 - 1] [1]).2 (by simp [U256])
+  simp [cliSummaryWith] at h1
+
+/-- The statement is satisfiable: a `checked_add` accumulation meets it (so `not_cliSummaryExact` says something
+about `+=`, not about every total function below 2^256). -/
+theorem cli_summary_checked_exact : CliSummaryExactOf (cliSummaryWith true) := by
+  intro l d
+  unfold cliSummaryWith
+  constructor
+  · intro h; rw [if_pos rfl, if_pos h]
+  · intro h; rw [if_pos rfl, if_neg (Nat.not_lt.mpr h)]
+
+/-- The current code meets the first half of the full statement (exact when representable) … -/
+theorem cli_summary_unchecked_exact_when_representable (l d : List Nat) (h : SumRepresentable (l ++ d)) :
+    cliSummaryWith false l d = some (l ++ d).sum := by
+  simp [cliSummaryWith, cli_summary_exact_partial l d h]
 
 /-- The full statement for the cost sums (`data_cost`, `vault_cost`, `register_cost`, `file_cost`, the quote prices):
 the exact sum, or a reported overflow — FALSE of the current code, see the witness. -/
@@ -358,6 +379,8 @@ end SafeNet.Props.C16
 #print axioms SafeNet.Props.C16.cli_summary_exact_partial
 #print axioms SafeNet.Props.C16.cli_summary_wraps_witness
 #print axioms SafeNet.Props.C16.not_cliSummaryExact
+#print axioms SafeNet.Props.C16.cli_summary_checked_exact
+#print axioms SafeNet.Props.C16.cli_summary_unchecked_exact_when_representable
 #print axioms SafeNet.Props.C16.cost_sum_exact_partial
 #print axioms SafeNet.Props.C16.cost_sum_wraps_witness
 #print axioms SafeNet.Props.C16.not_costSumExact
